@@ -1,3 +1,4 @@
 SPECIFICATION Spec
+CONSTANT TrackPrev = FALSE
 CONSTANT KS = {1, 2, 3}
 CHECK_DEADLOCK FALSE
